@@ -243,7 +243,12 @@ def run_task(task):
                 out['vacuity_witness'] = 1
             bad = None
             for (cname, phi) in res.clauses:
+                out['clauses'] = out.get('clauses', 0) + 1
+                if not (phi is True or phi is False):
+                    out['clauses_solver'] = out.get('clauses_solver', 0) + 1
                 m = eng.prove(phi)
+                if m is None:
+                    out['clauses_ok'] = out.get('clauses_ok', 0) + 1
                 if m is not None:
                     t = phi.t if isinstance(phi, SB) else phi
                     negphi = z3.Not(t) if isinstance(t, z3.ExprRef) else z3.BoolVal(True)
@@ -578,7 +583,10 @@ def run_check(modname, pid, tier, meta):
             bounds=meta.get('bounds', {}).get(tier, meta.get('bounds')),
             outside_the_claim=meta.get('outside', []),
             stubs=meta.get('stubs', []),
-            obligations={k: dict(paths=v['paths'], cubes=v['cubes'], outcomes=v['outcomes'],
+            obligations=sum(r.get('clauses', 0) for r in results),
+            discharged=sum(r.get('clauses_ok', 0) for r in results),
+            clauses_decided_by_solver=sum(r.get('clauses_solver', 0) for r in results),
+            obligation_details={k: dict(paths=v['paths'], cubes=v['cubes'], outcomes=v['outcomes'],
                                  reachability=sorted(v['reach']), cpu_s=round(v['wall_s'], 2),
                                  descr=[o.descr for o in obls if o.name == k][0])
                          for k, v in per_obl.items()},
